@@ -168,9 +168,36 @@ func ruleT13(r *Run) {
 						return true
 					})
 					if be, ok := fc.e.(*ast.BinaryExpr); ok {
-						// n == 1 / len(fields) == 1 (also as a switch case)
-						if c, ok := intConst(info, be.Y); ok && c == 1 && (be.Op == token.EQL) {
-							okFact = true
+						// n == 1 / len(fields) == 1 (also as a switch case); and any other comparison of the field count with a
+						// constant that n == 1 satisfies (the negated `n == 0` of an earlier early return narrows nothing)
+						isCount := false
+						switch cx := ast.Unparen(be.X).(type) {
+						case *ast.Ident:
+							isCount = true
+						case *ast.CallExpr:
+							isCount = IsBuiltin(info, cx, "len")
+						}
+						if c, ok := intConst(info, be.Y); ok && isCount && info.TypeOf(be.X) != nil {
+							if b, isB := info.TypeOf(be.X).Underlying().(*types.Basic); isB && b.Info()&types.IsInteger != 0 {
+								var holds, known bool
+								switch be.Op {
+								case token.EQL:
+									holds, known = 1 == c, true
+								case token.NEQ:
+									holds, known = 1 != c, true
+								case token.LSS:
+									holds, known = 1 < c, true
+								case token.LEQ:
+									holds, known = 1 <= c, true
+								case token.GTR:
+									holds, known = 1 > c, true
+								case token.GEQ:
+									holds, known = 1 >= c, true
+								}
+								if known && holds != fc.neg {
+									okFact = true
+								}
+							}
 						}
 					}
 					if !okFact {
